@@ -354,6 +354,9 @@ def run(repo, rep):
     from . import c08
     c08.carry_rule(repo, rep)
     c08.digit_rules(repo, rep)
+    # a DMS / DDM result is built by dec2dms / dec2ddm from the decimal value of the operation: their field arithmetic (one product, two
+    # divmods - the whole minutes and the seconds are cut from the SAME number) is part of what every operator returns
+    c08.forms_rules(repo, rep)
     # the sign of a DMS / DDM result travels as a flag tested by identity: it must be handed on as True / False themselves
     from . import common
     common.identity_flag_rule(repo, rep, 'geodepy.angles')
